@@ -20,6 +20,17 @@ RULE = ("case = scope program (1-5 tasks: async/sync scopes and ctx.updated nest
         "distinct = by case text")
 
 
+
+def extra_obligations():
+    """`TaskGroupContext.run` (= ctx.spawn) regenerated from /repo's tasks.py as a MiniPy term and proved to do what the
+    `Groups` model takes a spawn to be: inside a scope the task is created in the scope's group, exactly once, from one
+    call of the callable; a refusal of the group or an exception of the callable reaches the caller as that object with
+    nothing started anywhere; only without a group in the context is the task created detached on the loop"""
+    from harness import core, regen
+
+    return regen.check("spawn", core.REPO, core.LEAN)
+
+
 def corpus():
     out = []
     for prog in gc.DIRECTED:
